@@ -122,11 +122,12 @@ def _gen_script(rng, kind, faulty):
         return s
     f = rng.choice(["launch", "nonzero", "hang", "out", "tree", "nonzero_partial", "eval"])
     if f == "launch":
-        s["launch"] = rng.choice(["enoent", "eacces", "eagain"])
+        # "interrupt": a signal (Ctrl-C) reaches the caller's thread while start() is launching the program
+        s["launch"] = rng.choice(["enoent", "eacces", "eagain", "interrupt"])
         if kind == "stublocal" and rng.random() < 0.4:
             # the launch itself works, but a step of the subclass' run() after it raises: the run has ended as well
             s["launch"] = "ok"
-            s["post_launch"] = "fail"
+            s["post_launch"] = rng.choice(["fail", "fail", "interrupt"])
     elif f in ("nonzero", "nonzero_partial"):
         s["exit"] = rng.choice([1, 2, 127, 139, -11])
         s["stderr"] = rng.choice(["", "FATAL: something\nwent wrong\n", "Killed\n"])
@@ -298,7 +299,10 @@ def generate(rng):
             if hang and s["st"] != RUNNING and to is None:
                 to = 3.0
             ops.append({"w": cur, "op": "join", "timeout": to})
-            if s["st"] == RUNNING:
+            if faulty and rng.random() < 0.08:
+                # a signal interrupts the caller while it waits in join(), this many simulated seconds into the wait
+                ops[-1]["intr"] = rng.choice([0.0, 0.05, 0.3, 2.0, 20.0])
+            elif s["st"] == RUNNING:
                 s["st"] = "ENDED"
         elif choice == "cancel":
             ops.append({"w": cur, "op": "cancel"})
@@ -713,6 +717,7 @@ class Sim:
             outcome = self.dispatch(rec, op)
         finally:
             self.world.current = None
+            self.world.interrupt_at = None  # an interrupt armed for this call never outlives it
             # files that appear during a call on this wrapper belong to it (whenever the code chooses to create them)
             for n in set(os.listdir(self.tmp)) - listing0:
                 self.adopt(n, rec)
@@ -1154,12 +1159,16 @@ class Sim:
             expect_fail = FileNotFoundError
             self.res.stats["fault:exec-dir-missing"] += 1
         elif script["launch"] != "ok":
-            expect_fail = {"enoent": FileNotFoundError, "eacces": PermissionError, "eagain": OSError}[script["launch"]]
+            expect_fail = {"enoent": FileNotFoundError, "eacces": PermissionError, "eagain": OSError,
+                           "interrupt": sw.InjectedInterrupt}[script["launch"]]
             if rec.exec_dir_path is not None:
                 self.res.stats["probe:launch-failed-with-execdir"] += 1
         elif script.get("post_launch") == "fail" and rec.kind == "stublocal":
             expect_fail = RuntimeError
             self.res.stats["fault:run-fails-after-launch"] += 1
+        elif script.get("post_launch") == "interrupt" and rec.kind == "stublocal":
+            expect_fail = sw.InjectedInterrupt
+            self.res.stats["fault:interrupt-after-launch"] += 1
         ctrl = self.ctrl_for(rec) if self.real else None
         st, val = call(fn)
         if self.real and st == "exc" and script.get("post_launch") == "fail" and getattr(rec.app, "_process", None) is not None:
@@ -1179,6 +1188,13 @@ class Sim:
                 self.fail("start:launch-failure-swallowed", kind=rec.kind, launch=script["launch"])
             if not isinstance(val, expect_fail):
                 self.fail("start:wrong-exception", kind=rec.kind, got=exc_name(val), expected=expect_fail.__name__, msg=str(val)[:200])
+            if expect_fail is sw.InjectedInterrupt and str(getattr(rec.app, "_state", "")).endswith("CREATED") \
+                    and not any(p.alive() for p in rec.procs) and rec.cleanups == 0:
+                # an interrupted launch that leaves the wrapper exactly as it was (still CREATED, nothing launched,
+                # nothing released) has not started a run; the caller may try again. Accepted next to "the run has
+                # ended and everything was released" - what is not accepted is anything in between
+                self.res.stats["probe:interrupted-launch-left-created"] += 1
+                return "launch-interrupted:still-created"
             rec.state = LAUNCH_FAILED
             rec.ended = True
             rec.end_how = "launch-failure"
@@ -1296,6 +1312,11 @@ class Sim:
         hang = rec.exit_at is None or rec.exit_at == sw.INF
         poll = rec.kind == "stubpoll"
         jumped_before = world.jumped
+        intr = op.get("intr") if not self.real else None
+        if intr is not None:
+            world.interrupt_at = world.now + intr
+        elif hang and to is None:
+            raise InvalidSpec("join without timeout on a tool that never exits")
         if self.real:
             if hang and to is None:
                 raise InvalidSpec("join without timeout on a tool that never exits")
@@ -1313,6 +1334,25 @@ class Sim:
                 self.settle()  # other wrappers' children whose exit instant has passed meanwhile
         else:
             st, val = call(fn, *args, **kwargs)
+        world.interrupt_at = None
+        if st == "exc" and isinstance(val, sw.InjectedInterrupt):
+            # the wait was interrupted before the run had ended. Two coherent outcomes: the wrapper is exactly as
+            # before (the caller may join again or cancel), or it took the interrupt as a cancellation and released
+            # everything; the resource invariants after this step tell a half-way state from both
+            self.res.stats["probe:join-interrupted"] += 1
+            if intr is None:
+                self.fail("join:interrupt-out-of-nowhere", kind=rec.kind)
+            if world.now + 1e-9 < now0 + intr:
+                self.fail("join:interrupt-too-early", kind=rec.kind)
+            real_state = str(getattr(rec.app, "_state", ""))
+            if real_state.endswith("CANCELLED"):
+                rec.state = CANCELLED
+                rec.ended = True
+                rec.end_how = "interrupted-join"
+                return "interrupted:cancelled"
+            if real_state.endswith("JOINED"):
+                self.fail("join:joined-although-interrupted", kind=rec.kind)
+            return "interrupted:unchanged"
         elapsed = world.now - now0
         jump = world.jumped
         if jump and poll:
@@ -1606,6 +1646,8 @@ def make_stub_local(bin_path, script=None):
             super().run()
             if script.get("post_launch") == "fail":
                 raise RuntimeError("a step of run() after the launch failed")
+            if script.get("post_launch") == "interrupt":
+                raise sw.InjectedInterrupt()
 
     return StubLocalApp(bin_path)
 
@@ -1637,6 +1679,8 @@ def make_stub_poll(sim, rec):
         def run(self):
             if script["launch"] != "ok":
                 world.stats[f"fault:launch-{script['launch']}"] += 1
+                if script["launch"] == "interrupt":
+                    raise sw.InjectedInterrupt()
                 raise {"enoent": FileNotFoundError, "eacces": PermissionError, "eagain": BlockingIOError}[script["launch"]](script["launch"])
             f = tempfile.NamedTemporaryFile("w", suffix=".job", delete=False)
             f.close()
@@ -2078,8 +2122,10 @@ def execute_real(spec, keep_log=0):
 
 
 def real_expressible(spec):
+    if any("intr" in o for o in spec["ops"]):
+        return False
     for w in spec["cfg"]["wrappers"]:
-        if w["kind"] == "stubpoll" or w["script"].get("launch") == "eagain":
+        if w["kind"] == "stubpoll" or w["script"].get("launch") in ("eagain", "interrupt") or w["script"].get("post_launch") == "interrupt":
             return False
         if (w.get("version") or {}).get("kind") == "enoent":
             return False
